@@ -155,9 +155,11 @@ def run(ctx: Ctx) -> None:
     gv = prog.func('expressions.base_expressions', 'Expression.get_value_and_derivatives')
     named = [c for c in walk_no_nested(gv.node) if isinstance(c, ast.Call) and call_name(c) in ('NamedBiogemeFunctionOutput', 'NamedBiogemeDisaggregateFunctionOutput')]
     ctx.need(len(named) == 2, 'two named outputs in get_value_and_derivatives')
+    res = [unparse(n.targets[0]) for n in walk_no_nested(gv.node) if isinstance(n, ast.Assign) and isinstance(n.value, ast.Call) and call_name(n.value) == 'calculate_function_and_derivatives']
+    ctx.need(len(res) == 1, 'get_value_and_derivatives stores the result of the engine evaluation')
     for c in named:
         kw = {k.arg: unparse(k.value) for k in c.keywords}
-        ok = kw == {'function_output': 'results', 'mapping': 'self.id_manager.free_betas.indices'}
+        ok = kw == {'function_output': res[0], 'mapping': 'self.id_manager.free_betas.indices'}
         ctx.add('C02.R4', f'get_value_and_derivatives:{call_name(c)}', ok, (gv.file, c.lineno), 'names come from free_betas.indices' if ok else f'{call_name(c)}({kw})', str(sorted(kw.items())))
     ctx.floor('C02.R4', 5)
 
